@@ -202,3 +202,7 @@ fn c07_rwlock_inspect_and_new() {
     reach!("c07_rwlock_inspect_and_new");
 }
 }
+
+pub(crate) fn free_rwlock_state() -> State {
+    State { lock: None, last_access: None, synchronize: Synchronize::new() }
+}
